@@ -16,7 +16,9 @@ LEVEL_TEXT = (
     "ARBITRARY length and content (array-theory encoding of the four parallel lists, contract c07 'connect_step_*', see evidence), "
     "and list operands of 1x2 / 2x1 (quick) and 2x2 (thorough) modules at arbitrary positions with each element optionally negated "
     "('connect_lists_on_heap': the loops of connect() are cut with the loop invariant 'LinksOK and every pair already visited is in its "
-    "requested state', proved at every loop head, plus a frame on the tables of all other modules); "
+    "requested state', proved at every loop head, plus a frame on the tables of all other modules); the operator sugar "
+    "(Module / DisconnectingModule / ModuleList __rshift__, __lshift__, __invert__) is verified as a modular caller of connect(): "
+    "every path of the six methods against a recording stub of the callee ('operator_sugar_delegates_to_connect'); "
     "(b) bounded: the composition over operation histories, list operands and the operator sugar is an exhaustive small-scope "
     "enumeration of histories run on the real code with the invariant and a reference model evaluated as run-time contracts. "
     "(b) is listed under bounded_parts and is not counted as proved."
@@ -397,3 +399,67 @@ def chained_list_operands(H, _):
     a >> [b, c] >> [d, e]
     a >> [b, ~c] >> [~d, e]
     H.check("negated_elements_inside_chained_lists", L.links_ok(p) is None, witness={"have": sorted(L.graph_of(p))})
+
+
+# ---------------------------------------------------------------------------------------------
+# The operator sugar as modular callers of Project.connect: every path of the six dunder methods is
+# interpreted against a recording stub of the callee, so that the deductive contracts of connect()
+# (connect_step_*, connect_lists_on_heap) carry over to `>>`, `<<` and `~` without a history search.
+
+
+def _sugar_cases(tier):
+    out = []
+    for recv in ("module", "negated_module", "module_list"):
+        for op in ("rshift", "lshift"):
+            for other in ("module", "negated_module", "plain_list", "module_list", "mixed_list", "empty_list"):
+                out.append((f"{recv},{op},{other}", (recv, op, other)))
+    return out
+
+
+@contract(
+    "operator_sugar_delegates_to_connect", ["C07"], cases=_sugar_cases,
+    targets=["rv.modules.module:Module.__rshift__", "rv.modules.module:Module.__lshift__", "rv.modules.module:Module.__invert__",
+             "rv.modules.module:DisconnectingModule.__rshift__", "rv.modules.module:DisconnectingModule.__lshift__",
+             "rv.modules.module:DisconnectingModule.__invert__", "rv.modules.module:DisconnectingModule.__getattr__",
+             "rv.modules.module:ModuleList.__rshift__", "rv.modules.module:ModuleList.__lshift__"],
+)
+def operator_sugar_delegates_to_connect(H, case):
+    """Callee Project.connect is replaced by a stub that records its arguments (its own contract is verified
+    separately).  ensures for receiver x (a module, ~module or ModuleList) and operand y (a module, ~module, a
+    plain list with or without negated elements, a ModuleList, an empty list): `x >> y` makes exactly one call
+    connect(x, y) and `x << y` exactly one call connect(y, x) - the very objects, so the callee sees every
+    negation - on the project the receiver belongs to; the result is y itself, or for a list operand a ModuleList
+    of the same project holding the same elements in the same order (chaining); `~m` wraps m, `~~m` is m, the
+    wrapper reads and writes through to the module; no link table is touched by the sugar itself."""
+    recv_kind, op, other_kind = case
+    p = L.new_project(4)
+    m1, m2, m3, m4 = p.modules[1:5]
+    calls = []
+
+    def stub(frm, to):
+        calls.append((frm, to))
+
+    p.connect = stub  # instance attribute shadows the method for `self.parent.connect`
+    neg2 = H.call(m2.__invert__)
+    H.check("invert_wraps_the_module", type(neg2) is DisconnectingModule and neg2.__dict__["orig"] is m2)
+    H.check("double_invert_is_the_module", H.call(neg2.__invert__) is m2)
+    H.check("wrapper_reads_through", H.getattr(neg2, "index") == m2.index and H.getattr(neg2, "parent") is p)
+    recv = {"module": m1, "negated_module": DisconnectingModule(m1), "module_list": ModuleList(p, [m1, m4])}[recv_kind]
+    other = {"module": m2, "negated_module": neg2, "plain_list": [m2, m3], "module_list": ModuleList(p, [m2, m3]),
+             "mixed_list": [m2, DisconnectingModule(m3)], "empty_list": []}[other_kind]
+    elems = list(other) if isinstance(other, list) else None
+    before = L.tables(p)
+    fn = type(recv).__rshift__ if op == "rshift" else type(recv).__lshift__
+    res = H.call(fn, recv, other)
+    H.check("exactly_one_connect_call", len(calls) == 1)
+    if len(calls) == 1:
+        frm, to = calls[0]
+        want = (recv, other) if op == "rshift" else (other, recv)
+        H.check("connect_called_with_the_operands_in_arrow_direction", frm is want[0] and to is want[1])
+    if elems is None:
+        H.check("returns_right_operand", res is other)
+    else:
+        H.check("returns_module_list_of_same_project", type(res) is ModuleList and res.parent is p)
+        H.check("returned_list_holds_the_operand_elements", isinstance(res, list) and len(res) == len(elems) and all(a is b for a, b in zip(res, elems)))
+    H.check("sugar_touches_no_link_table", L.tables(p) == before)
+    H.cover("reached")
